@@ -10,7 +10,8 @@
 (*         FolderScanReq FolderRestoreReq FolderCorrupt FolderRepair        *)
 (*         OsScanReq SqlDelete SqlEncrypt PowerOff PowerOn                  *)
 (*         TickBegin OsScanDone FixDone InstallDone FoScanDone RestoreDone  *)
-(*         TickEnd | Raised | Other (a write in no known context)           *)
+(*         TickEnd | Other (anything else: another request, benign traffic, *)
+(*         a write in no known context) | Raised                           *)
 (*   i     file index (0 when not a file event), ok = request accepted      *)
 (*   a, v  software true / visible health; fh, fv files' true / visible;    *)
 (*         fov folder visible; on = node ON  (all read from the objects     *)
@@ -54,7 +55,7 @@ MayWrite(e) ==
 
 Clauses(e) ==
     [ NoError        |-> e.ev # "Raised",
-      NoStrayWrites  |-> e.stray = 0 /\ e.ev # "Other",
+      NoStrayWrites  |-> e.stray = 0,
       KnownEvent     |-> e.ev \in Known \cup {"Raised", "Other"},
       \* visible health changes only at the completion of a scan covering the item ...
       SwVisibleOnlyByScan   |-> e.v # swV => e.ev \in SwScanActs,
@@ -117,6 +118,7 @@ Step(e) ==
       [] e.ev = "InstallDone"  -> InstallDone
       [] e.ev = "RestoreDone"  -> RestoreDone(Live(e), e.fh)
       [] e.ev = "TickEnd"      -> TickEnd
+      [] e.ev = "Other"        -> Other
       [] OTHER -> FALSE
 
 \* the projected state read from the objects after the event
